@@ -11,7 +11,10 @@ deriving DecidableEq, Repr
 
 structure KillRing where
   slots : List Text
+  /-- slot of the most recent kill -/
   index : Nat
+  /-- slot that yank returns: `index`, moved back by each yank-pop until the next kill -/
+  yankIndex : Nat := 0
   lastAction : KAction
   killing : Bool
   cap : Nat
@@ -38,15 +41,15 @@ def kill (k : KillRing) (text : Text) (dir : KMode) : Except Panic KillRing :=
     if k.cap == 0 then .ok k
     else
       let idx := if k.index == k.cap - 1 then 0 else if !k.slots.isEmpty then k.index + 1 else k.index
-      if idx == k.slots.length then .ok { k with index := idx, slots := k.slots ++ [text] }
-      else if idx < k.slots.length then .ok { k with index := idx, slots := k.slots.set idx text }
+      if idx == k.slots.length then .ok { k with index := idx, yankIndex := idx, slots := k.slots ++ [text] }
+      else if idx < k.slots.length then .ok { k with index := idx, yankIndex := idx, slots := k.slots.set idx text }
       else .error .panic
 
 /-- `KillRing::yank` -/
 def yank (k : KillRing) : Except Panic (KillRing × Option Text) :=
   if k.slots.isEmpty then .ok (k, none)
   else
-    match k.slots[k.index]? with
+    match k.slots[k.yankIndex]? with
     | none => .error .panic
     | some s => .ok ({ k with lastAction := .yank (blen s) }, some s)
 
@@ -63,19 +66,34 @@ def yankPop (k : KillRing) : Except Panic (KillRing × Option (Nat × Text)) :=
   | .yank size =>
     if k.slots.isEmpty then .ok (k, none)
     else
-      let idx := if k.index == 0 then k.slots.length - 1 else k.index - 1
+      let idx := if k.yankIndex == 0 then k.slots.length - 1 else k.yankIndex - 1
       match k.slots[idx]? with
       | none => .error .panic
-      | some s => .ok ({ k with index := idx, lastAction := .yank (blen s) }, some (size, s))
+      | some s => .ok ({ k with yankIndex := idx, lastAction := .yank (blen s) }, some (size, s))
   | _ => .ok (k, none)
 
 def startKilling (k : KillRing) : KillRing := { k with killing := true }
 def stopKilling (k : KillRing) : KillRing := { k with killing := false }
 
-/-- `DeleteListener::delete` for the ring -/
+/-- the first `n` bytes of a text and the rest (total: a cut inside a character goes behind it) -/
+def cutBytes : Text → Nat → Text × Text
+  | [], _ => ([], [])
+  | c :: t, n => if n = 0 then ([], c :: t) else ((cutBytes t (n - c.utf8Size)).1.cons c, (cutBytes t (n - c.utf8Size)).2)
+
+/-- `DeleteListener::delete` / `delete_around` for the ring: of a span with the cursor inside, the text
+    on the left of the cursor goes before and the text on the right behind what the kill sequence has
+    accumulated (empty parts are not reported) -/
 def onDelete (k : KillRing) (text : Text) (dir : Direction) : Except Panic KillRing :=
   if !k.killing then .ok k
-  else k.kill text (match dir with | .forward => .append | .backward => .prepend)
+  else
+    match dir with
+    | .forward => k.kill text .append
+    | .backward => k.kill text .prepend
+    | .around n =>
+      let (before, after) := cutBytes text n
+      match (if before.isEmpty then .ok k else k.kill before .prepend) with
+      | .error e => .error e
+      | .ok k1 => if after.isEmpty then .ok k1 else k1.kill after .append
 
 end KillRing
 end Rl
